@@ -365,6 +365,11 @@ class TLSRecordLayer(object):
             else:
                 allowedHsTypes = (HandshakeType.new_session_ticket,
                                   HandshakeType.key_update)
+            if not self._client:
+                # only servers issue tickets
+                allowedHsTypes = tuple(
+                    i for i in allowedHsTypes
+                    if i != HandshakeType.new_session_ticket)
         else:
             allowedTypes = ContentType.application_data
             allowedHsTypes = None
